@@ -404,25 +404,60 @@ def short(path, primary):
 VALUE_KEY_PREFIXES = ("coeff", "tdh_wfns", "mt_", "tensor_")       # complex-capable numerical content
 LOSSLESS = {"item", "copy", "tolist", "asxp", "asnumpy", "Matrix", "TreeNodeTensor", "np.asarray", "np.array", "xp.asarray", "complex", "<subscript>", "<assign>", "setattr"}
 LOSSY = {"real", "imag", "astype", "round", "float", "int", "abs", "bool", "np.real", "np.imag", "np.abs", "np.float64", "np.float32", "np.around", "np.round", "clip"}
-META_OK = {"int", "bool", "astype", "tolist", "str", "item", "<subscript>", "<assign>", "<compare>", "setattr", "copy", "np.array", "np.asarray"}
+META_OK = {"range", "int", "bool", "astype", "tolist", "str", "item", "<subscript>", "<assign>", "<compare>", "setattr", "copy", "np.array", "np.asarray"}
 
 
 def lossless_restore_rule(chk, src):
-    """every value read from the archive reaches its attribute through value-preserving conversions only"""
-    n = 0
-    for rel in (MP, MPS, "renormalizer/tn/tree.py"):
+    """every value read from the archive reaches its attribute through value-preserving conversions only; the archive (or a value read from it) handed to another function of
+    the repository is followed into that function"""
+    RELS = (MP, MPS, "renormalizer/tn/tree.py")
+    by_name = {}
+    for rel in RELS:
         for fi in src.funcs_in(rel):
-            if not fi.qual.endswith(".load"):
-                continue
-            parents = {}
-            for p_ in ast.walk(fi.node):
-                for c_ in ast.iter_child_nodes(p_):
-                    parents[c_] = p_
-            archives = {t.id for st in ast.walk(fi.node) if isinstance(st, ast.Assign) and isinstance(st.value, ast.Call) and unparse(st.value.func).endswith("np.load")
+            if fi.parent is None:
+                by_name.setdefault(fi.name, []).append(fi)
+
+    def callee_of(call, fi):
+        """the repository function a call hands its arguments to (by method / function name, unique among the state modules), and the offset of its first explicit parameter"""
+        nm = call.func.attr if isinstance(call.func, ast.Attribute) else (call.func.id if isinstance(call.func, ast.Name) else None)
+        cands = by_name.get(nm, [])
+        if len(cands) != 1:
+            return None, 0
+        c = cands[0]
+        is_method = c.cls is not None and not any(unparse(d) == "staticmethod" for d in c.node.decorator_list)
+        return c, (1 if is_method and isinstance(call.func, ast.Attribute) else 0)
+
+    def param_for(call, node, callee, off):
+        ps = callee.params()
+        for i, a_ in enumerate(call.args):
+            if a_ is node:
+                return ps[i + off] if i + off < len(ps) else None
+        for k_ in call.keywords:
+            if k_.value is node:
+                return k_.arg if k_.arg in ps else None
+        return None
+    n = 0
+    work = []          # (function, {archive names}, {value names: key})
+    for rel in RELS:
+        for fi in src.funcs_in(rel):
+            if fi.qual.endswith(".load"):
+                arch = {t.id for st in ast.walk(fi.node) if isinstance(st, ast.Assign) and isinstance(st.value, ast.Call) and unparse(st.value.func).endswith("np.load")
                         for t in st.targets if isinstance(t, ast.Name)}
-            for sub in ast.walk(fi.node):
-                if not (isinstance(sub, ast.Subscript) and isinstance(sub.value, ast.Name) and sub.value.id in archives):
-                    continue
+                work.append((fi, frozenset(arch), ()))
+    seen = set()
+    while work:
+        fi, archives, values = work.pop(0)
+        if (fi.where, archives, values) in seen:
+            continue
+        seen.add((fi.where, archives, values))
+        values = dict(values)
+        parents = {}
+        for p_ in ast.walk(fi.node):
+            for c_ in ast.iter_child_nodes(p_):
+                parents[c_] = p_
+        starts = []
+        for sub in ast.walk(fi.node):
+            if isinstance(sub, ast.Subscript) and isinstance(sub.value, ast.Name) and sub.value.id in archives:
                 k = sub.slice
                 if isinstance(k, ast.Constant):
                     key = str(k.value)
@@ -430,38 +465,55 @@ def lossless_restore_rule(chk, src):
                     key = "".join(str(v.value) if isinstance(v, ast.Constant) else "{}" for v in k.values)
                 else:
                     key = "<" + unparse(k) + ">"       # npload[attr]: any dumped attribute
-                is_value = key.startswith(VALUE_KEY_PREFIXES) or key.startswith("<")
-                chain = []
-                cur = sub
-                while cur in parents and not isinstance(parents[cur], ast.stmt):
-                    par = parents[cur]
-                    if isinstance(par, ast.Attribute) and par.value is cur:
-                        gp = parents.get(par)
-                        if isinstance(gp, ast.Call) and gp.func is par:
-                            chain.append(par.attr)
-                            cur = gp
-                            continue
+                starts.append((sub, key))
+            elif isinstance(sub, ast.Name) and isinstance(sub.ctx, ast.Load) and sub.id in values:
+                starts.append((sub, values[sub.id]))
+            elif isinstance(sub, ast.Name) and isinstance(sub.ctx, ast.Load) and sub.id in archives:
+                par = parents.get(sub)
+                if isinstance(par, ast.Call) and (sub in par.args or any(k_.value is sub for k_ in par.keywords)) and not unparse(par.func).endswith("np.load"):
+                    callee, off = callee_of(par, fi)
+                    pn = param_for(par, sub, callee, off) if callee is not None else None
+                    if pn is None:
+                        raise AnalysisError(f"{fi.where}: the archive is handed to `{unparse(par.func)}`, which is not a unique function of the state modules")
+                    work.append((callee, frozenset([pn]), ()))
+        for sub, key in starts:
+            is_value = key.startswith(VALUE_KEY_PREFIXES) or key.startswith("<")
+            chain = []
+            cur = sub
+            while cur in parents and not isinstance(parents[cur], ast.stmt):
+                par = parents[cur]
+                if isinstance(par, ast.Attribute) and par.value is cur:
+                    gp = parents.get(par)
+                    if isinstance(gp, ast.Call) and gp.func is par:
                         chain.append(par.attr)
-                    elif isinstance(par, ast.Call) and cur in par.args:
-                        chain.append(unparse(par.func))
-                    elif isinstance(par, ast.Subscript) and par.value is cur:
-                        chain.append("<subscript>")
-                    elif isinstance(par, ast.Compare):
-                        chain.append("<compare>")
-                    elif isinstance(par, (ast.keyword, ast.Starred, ast.Tuple, ast.List, ast.ListComp, ast.GeneratorExp, ast.SetComp, ast.DictComp, ast.comprehension, ast.Dict, ast.IfExp)):
-                        pass        # containers, comprehensions and conditional expressions hand the value on unchanged
-                    else:
-                        chain.append("<" + type(par).__name__ + ">")
-                    cur = par
-                n += 1
-                allowed = LOSSLESS if is_value else (META_OK | LOSSLESS)
-                lossy = [c for c in chain if c in LOSSY and c not in allowed]
-                unknown = [c for c in chain if c not in allowed and c not in LOSSY]
-                if unknown:
-                    raise AnalysisError(f"{fi.where}: conversion {unknown} applied to npload[{key!r}] is not classified (value-preserving or not?) in rules/C14.py")
-                chk.ob("lossless-restore", f"{fi.qual}: npload[{key!r}]", not lossy, fi.where, chain or "as stored", "value-preserving conversions only (item, indexing, array wrappers)", line=sub.lineno,
-                       detail=f"{fi.qual} restores {key!r} through {lossy}: part of the stored value is dropped (e.g. the phase of a complex prefactor or the imaginary part of the tensors), "
-                              "so a reloaded state differs from the dumped one only for complex content")
+                        cur = gp
+                        continue
+                    chain.append(par.attr)
+                elif isinstance(par, ast.Call) and (cur in par.args or any(k_.value is cur for k_ in par.keywords)):
+                    callee, off = callee_of(par, fi)
+                    pn = param_for(par, cur, callee, off) if callee is not None else None
+                    if pn is not None and unparse(par.func) not in LOSSLESS | LOSSY | META_OK:
+                        work.append((callee, frozenset(), ((pn, key),)))     # handed on unchanged; what the callee does with it is judged there
+                        break
+                    chain.append(unparse(par.func))
+                elif isinstance(par, ast.Subscript) and par.value is cur:
+                    chain.append("<subscript>")
+                elif isinstance(par, ast.Compare):
+                    chain.append("<compare>")
+                elif isinstance(par, (ast.keyword, ast.Starred, ast.Tuple, ast.List, ast.ListComp, ast.GeneratorExp, ast.SetComp, ast.DictComp, ast.comprehension, ast.Dict, ast.IfExp)):
+                    pass        # containers, comprehensions and conditional expressions hand the value on unchanged
+                else:
+                    chain.append("<" + type(par).__name__ + ">")
+                cur = par
+            n += 1
+            allowed = LOSSLESS if is_value else (META_OK | LOSSLESS)
+            lossy = [c for c in chain if c in LOSSY and c not in allowed]
+            unknown = [c for c in chain if c not in allowed and c not in LOSSY]
+            if unknown:
+                raise AnalysisError(f"{fi.where}: conversion {unknown} applied to npload[{key!r}] is not classified (value-preserving or not?) in rules/C14.py")
+            chk.ob("lossless-restore", f"{fi.qual}: npload[{key!r}]", not lossy, fi.where, chain or "as stored", "value-preserving conversions only (item, indexing, array wrappers)", line=sub.lineno,
+                   detail=f"{fi.qual} restores {key!r} through {lossy}: part of the stored value is dropped (e.g. the phase of a complex prefactor or the imaginary part of the tensors), "
+                          "so a reloaded state differs from the dumped one only for complex content")
     return n
 
 
@@ -709,7 +761,7 @@ def tree_round_trip_rule(chk, src):
     """TTNBase/TTNS: the writer's dictionary is fed to the reader; node i of the reloaded tree must carry the tensor and labels of node i, extra attributes restored"""
     from ..syminterp import SymInterp, Sym, OpenSym, Blob
     TREE = "renormalizer/tn/tree.py"
-    for cname, extra in (("TTNBase", ["coeff"]), ("TTNS", None)):
+    for cname, extra in (("TTNBase", ["coeff"]), ("TTNS", None), ("TTNS", ["time"])):
         fd = src.func(TREE, f"{cname}.dump") if src.find_func(TREE, f"{cname}.dump") else None
         fl = src.func(TREE, f"{cname}.load")
         base_d, base_l = src.func(TREE, "TTNBase.dump"), src.func(TREE, "TTNBase.load")
@@ -720,14 +772,14 @@ def tree_round_trip_rule(chk, src):
             class Tree(Sym):
                 def __len__(self):
                     return n
-            me = Tree("ttns", node_list=nodes, coeff="the-coeff")
+            me = Tree("ttns", node_list=nodes, coeff="the-coeff", time="the-time")
             itd = SymInterp(src, None, {"np": OpenSym("np", savez=lambda fname, **kw: saved.update(kw)), "logger": Blob("logger"),
                                         "super": lambda: Sym("super", dump=lambda fname, other_attrs=None: itd.call_function(base_d, [me, fname, other_attrs]))})
             itd.builtins["len"] = lambda x: n if x is me else len(x)
             from ..syminterp import SymRaise
             fail = None
             try:
-                itd.call_function(fd or base_d, [me, "file"] + ([extra] if cname == "TTNBase" else []))
+                itd.call_function(fd or base_d, [me, "file"] + ([list(extra)] if extra is not None else []))
             except (AttributeError, KeyError, IndexError, TypeError, SymRaise) as e:
                 fail = f"writer: {type(e).__name__}: {e}"
 
@@ -756,14 +808,15 @@ def tree_round_trip_rule(chk, src):
             out = None
             if fail is None:
                 try:
-                    out = itl.call_function(fl, [ctor, basis, "file"] + ([extra] if cname == "TTNBase" else []))
+                    out = itl.call_function(fl, [ctor, basis, "file"] + ([list(extra)] if extra is not None else []))
                 except (AttributeError, KeyError, IndexError, TypeError, SymRaise) as e:
                     fail = f"reader fed with the writer's archive: {type(e).__name__}: {e}"
             want = [(f"tensor-of-node{i}", f"qn-of-node{i}") for i in range(n)]
             ok = fail is None and made == want and len(conn) == 1 and conn[0][1] == [("node", i) for i in range(n)] and bool(inst) and out is inst[-1] and out.root == ("node", 0) and getattr(out, "coeff", None) == "the-coeff" \
-                and saved.get("version") is not None
+                and saved.get("version") is not None and (extra in (None, ["coeff"]) or getattr(out, "time", None) == "the-time")
             wrong = ([fail] if fail else []) + [f"node {i}: {m}" for i, (m, w) in enumerate(zip(made, want)) if m != w][:2]
-            chk.ob("tree-round-trip", f"{cname}.dump -> {cname}.load [{n} nodes]", ok, fl.where, wrong or {"nodes": len(made), "coeff": getattr(out, "coeff", None), "root": getattr(out, "root", None)},
+            chk.ob("tree-round-trip", f"{cname}.dump -> {cname}.load [{n} nodes" + (", user attributes " + repr(extra) if cname == "TTNS" and extra else "") + "]", ok, fl.where,
+                   wrong or {"nodes": len(made), "coeff": getattr(out, "coeff", None), "user attribute": getattr(out, "time", None) if extra == ["time"] else "-", "root": getattr(out, "root", None)},
                    "node i restored from (tensor_i, qn_i) for i = 0..n-1 in node order; extra attributes restored; root = node 0", line=fl.node.lineno,
                    detail=f"{cname}: a dumped tree state must reload with every tensor (and its labels) on its own node: " + (wrong[0] if wrong else "attributes / connectivity differ") +
                           " - e.g. reading the archive's keys in lexicographic order puts tensor_10 before tensor_2 for trees with more than ten nodes")
@@ -892,7 +945,7 @@ def run(chk):
              "file exists after every file-system effect of dump_dict (exhaustive)", 3)
     chk.rule("lossless-restore", "numerical content read from the archive is restored without narrowing conversions", 10)
     lossless_restore_rule(chk, src)
-    chk.rule("tree-round-trip", "abstract run of the tree writer followed by the tree reader (3 and 12 nodes)", 4)
+    chk.rule("tree-round-trip", "abstract run of the tree writer followed by the tree reader (3 and 12 nodes; with and without a user attribute list)", 6)
     tree_round_trip_rule(chk, src)
     chk.rule("chain-round-trip", "abstract run of the chain writer followed by the chain reader (2 and 11 sites; MatrixProduct and Mps)", 4)
     chain_round_trip_rule(chk, src)
